@@ -55,13 +55,16 @@ RECURSIVE VarsDev(_)
 VarsDev(vs) == IF vs = <<>> THEN 0 ELSE VarDev(Head(vs)) + VarsDev(Tail(vs))
 Deviations(c) == B2N(c.opts.dname # "default") + B2N(c.opts.dnf # "default") + VarsDev(c.variants)
 
-MCAdmissible(c) ==
+MCBoundOK(c) ==
   /\ NVariants(c) >= 1
   /\ Deviations(c) <= MaxDeviations
-  /\ DebugPrintable(c)
   /\ \A v \in 1..NVariants(c) :
        /\ c.variants[v].style = "unit" => c.variants[v].dnf = "default"
        /\ \A i \in FieldIdx(c, v) : c.variants[v].fields[i].dbg = Ignore => c.variants[v].fields[i].key = ""
+\* nothing to print (no name and no shown field), or a rename on a field that is shown positionally
+MCSemOK(c) == DebugPrintable(c)
+MCAdmissible(c) == MCBoundOK(c) /\ MCSemOK(c)
+DoSealBad == SealBad(MCBoundOK, MCSemOK) /\ UNCHANGED run
 
 Init == BuildInit /\ run = NoRun
 
@@ -91,7 +94,7 @@ Return ==
   /\ run' = NoRun
   /\ UNCHANGED <<cfg, phase>>
 
-Next == DoStart \/ DoAddVariant \/ DoAddField \/ DoSeal \/ DoBegin \/ Step \/ Return
+Next == DoStart \/ DoAddVariant \/ DoAddField \/ DoSeal \/ DoSealBad \/ DoBegin \/ Step \/ Return
 Spec == Init /\ [][Next]_vars
 
 Finished == run # NoRun /\ run.done
